@@ -125,10 +125,10 @@ def run_mc(comp, tier):
     return res
 
 
-def run_gen(comp, tier, seed):
+def run_gen(comp, tier, seed, g=None):
     """TLC simulation mode prints behaviours of the spec; returns path of an ndjson schedule file"""
     c = COMPONENTS[comp]
-    g = c.get('gen')
+    g = g or c.get('gen')
     if not g:
         return None, 0
     num = g['num'][tier]
@@ -139,7 +139,7 @@ def run_gen(comp, tier, seed):
     key = '%s_%s_%d_%d_%d' % (spec_hash(files), comp, num, depth, seed)
     outp = os.path.join(WORK, 'gen_cache', key + '.ndjson')
     if os.path.exists(outp):
-        return outp, sum(1 for ln in open(outp) if '"reset"' in ln)
+        return outp, sum(1 for ln in open(outp) if '"e": "reset"' in ln)
     rc, out = tlc(cfg, mod, os.path.join(WORK, 'gen_' + key), workers=1,
                   extra=['-simulate', 'num=%d' % num, '-depth', str(depth), '-seed', str(seed)], timeout=900, heap='4g')
     os.makedirs(os.path.dirname(outp), exist_ok=True)
@@ -344,7 +344,7 @@ def check(prop, tier, seed, replay=None):
             log('[%s] note: actions never taken in %s: %s' % (prop, r['cfg'], r['never_taken']))
 
     traces = []
-    gen_path, gen_n = run_gen(comp, tier, seed)
+    gen_path, gen_n = run_gen(comp, tier, seed, P.get('gen'))
     skipped = 0
     if gen_path:
         outp = os.path.join(workdir, 'tr_gen.ndjson')
@@ -352,7 +352,7 @@ def check(prop, tier, seed, replay=None):
         skipped = st.get('skipped', 0)
         traces.append(('gen', outp))
         log('[%s] replayed %d TLC-generated behaviours in the implementation (%d events, %d steps skipped)' % (prop, gen_n, st.get('events', 0), skipped))
-    for k, rnd in enumerate(C['random'][tier]):
+    for k, rnd in enumerate((P.get('random') or C['random'])[tier]):
         outp = os.path.join(workdir, 'tr_rnd%d.ndjson' % k)
         st = harness([C['harness'], 'random', '--seed', str(seed + 1000 * k), '--runs', str(rnd['runs']), '--size', rnd.get('size', tier), '--out', outp] + rnd.get('args', []))
         traces.append(('rnd%d' % k, outp))
